@@ -282,7 +282,7 @@ class Run:
     def soak_abbr(self, kind, j):
         w = self.word(j)
         if kind == 'stylesheet':
-            return 'm%d+%s+p%d-%s+c#%03x+y%s:%s' % (j % 50, w, j % 7, w, j % 4096, w, w)
+            return 'm%d+%s+p%d-%s+c#%03x+y%s:%s+w%d%s' % (j % 50, w, j % 7, w, j % 4096, w, w, j % 90, w)
         return 'ul.l%s>li.i%s*2>a[title=%s data-%s]{t %s}+%s' % (w, w, w, w, w, w)
 
     def do_soak(self, i, op):
